@@ -46,7 +46,7 @@ Proof.
   2:{ cbn [fst]. destruct o; apply Acct_of_Pres; apply Pres_refl; exact B. }
   destruct o as [l t la sfs fs size mtu probe rnd|l now delay rs|now rnd|l now|now rnd|now|n now|l now|l|now cs hb]; cbn [op_valid] in Ev.
   - (* OSend *)
-    apply andb_prop in Ev as [Ev Hpr]. apply andb_prop in Ev as [Ev Hsz]. apply andb_prop in Ev as [Hlive Hl].
+    apply andb_prop in Ev as [Ev Hnil]. apply andb_prop in Ev as [Ev Hpr]. apply andb_prop in Ev as [Ev Hsz]. apply andb_prop in Ev as [Hlive Hl].
     destruct (space_live_sget st l Hl Hlive) as [s Hs].
     pose proof (send_spec T st orc l t la sfs fs size mtu probe rnd s B Hl Hs ltac:(lia)) as A.
     destruct (popPN st l rnd) as [st1 pn]. cbn [fst snd] in *. apply A.
